@@ -160,9 +160,10 @@ def setstate_tail_contract():
     def runner(I, st, info, ctx):
         from contracts.c05 import outcomes
         module, cname, fd = I.src.locate("%s:%s" % (MOD, QUAL))
-        idx = [i for i, x in enumerate(fd.body) if _ast.unparse(x).startswith("state.pop('param'")]
-        if len(idx) != 1:
-            raise OutOfReach("`state.pop('param', None)` not found in Parameterized.__setstate__")
+        # everything after the re-binding of the saved watchers (`if _param__private.watchers: …`)
+        idx = [i + 1 for i, x in enumerate(fd.body) if isinstance(x, _ast.If) and "_param__private.watchers" in _ast.unparse(x.test)]
+        if len(idx) != 1 or idx[0] >= len(fd.body):
+            raise OutOfReach("the tail after the watcher re-binding was not found in Parameterized.__setstate__")
         st.env = dict(info["env"])
         c = dict(ctx)
         c.update({"module": module, "owner": cname, "qual": QUAL, "fnode": fd, "selfname": "self"})
